@@ -437,6 +437,20 @@ class ProgBase(HookMixin, ContextMixin, Process):
             child = self.launch(make_class(item[1]), pid=f'{self.pid}/{item[2]}')
             world.cur().extra.setdefault('children', []).append(child)
             self._t('launched', idx, child=item[2])
+        elif kind == 'orphan':
+            # a child launched fire-and-forget that will wait for something that never comes: nobody keeps a reference
+            # to it or to its task, the garbage collector finalises its suspended step whenever it gets to it
+            self.loop.untracked = True
+            try:
+                self.launch(make_class(ORPHAN), pid=f'{self.pid}/{item[1]}')
+            finally:
+                self.loop.untracked = False
+            self._t('launched', idx, child=item[1])
+        elif kind == 'gc':
+            import gc
+
+            gc.collect()
+            self._t('resumed', idx)  # a sampling point right after the collection
         elif kind == 'nested':
             world.cur().extra.setdefault('parent', {})[f'{self.pid}/{item[2]}'] = self
             child = make_class(item[1])(pid=f'{self.pid}/{item[2]}', loop=self.loop)
@@ -511,6 +525,8 @@ class ProgBase(HookMixin, ContextMixin, Process):
                 elif item[0] == 'gate':
                     await world.cur().gate(self.pid, item[1])
                     self._t('resumed', idx)
+                elif item[0] == 'await_forever':
+                    await self.loop.create_future()  # nobody else holds this future
                 elif item[0] == 'await_child':
                     # step a child in this very task (it shares the parent's context)
                     cpid = f'{self.pid}/{item[2]}'
@@ -590,6 +606,9 @@ class Abort(process_states.Kill):
 
 STOCK_COMMANDS = {'Continue': process_states.Continue, 'Wait': process_states.Wait, 'Stop': process_states.Stop, 'Kill': process_states.Kill}
 SUBCLASS_COMMANDS = {'Continue': Retry, 'Wait': WaitForUpload, 'Stop': Verdict, 'Kill': Abort}
+
+
+ORPHAN = {'steps': [{'async': True, 'body': [['yield'], ['await_forever']], 'ret': ['value', 0]}]}
 
 
 class InterruptibleRunning(process_states.Running):
